@@ -114,6 +114,59 @@ def register(reg):
         COLL + '.get_parser_parsing_state_delta', COLL + '.stop_token_condition_met', COLL + '.stop_nodelist_condition_met',
         COLL + '.stop_token_condition_met_token', COLL + '.stop_condition_stop_data'}, split_depth=5)
 
+
+    # ---- LatexExpressionParser._parse_single_token -------------------------------------------------------------------------
+    EXPR = 'pylatexenc.latexnodes.parsers._expression.LatexExpressionParser'
+
+    def setup_pst(it):
+        ctx = it.ctx
+        s = sym_str(it, 's')
+        w = mk_walker_for_parsing(it, s)
+        tr = mk_reader_at(it, s, w.fields['tolerant_parsing'])
+        ps = mk_parsing_state(it, 'parsing_state', with_context=True, db_inv=True)
+        eps = mk_parsing_state(it, 'expr_parsing_state', with_context=True, db_inv=True)
+        parser = new_obj(it, EXPR, dict(allow_pre_space=sym_bool(it, 'allow_pre_space'),
+                                         allow_pre_comments=sym_bool(it, 'allow_pre_comments'),
+                                         return_full_node_list=sym_bool(it, 'return_full_node_list'),
+                                         single_token_requiring_arg_is_error=sym_bool(it, 'single_token_requiring_arg_is_error')),
+                         tag='self')
+        return {'self': parser, 'latex_walker': w, 'token_reader': tr, 'expr_parsing_state': eps, 'parsing_state': ps,
+                'kwargs': PyDict()}
+
+    reg.spec('last_token')(lambda it: it.ctx.ghost.get('last_token'))
+
+    @reg.spec('nodes_span_token')
+    def nodes_span_token(it, res, reader_pos=None):
+        """a one-node result covers exactly the token that was read, and the reader stands at its end"""
+        t = it.ctx.ghost.get('last_token')
+        if not (isinstance(res, PyList) and res.items is not None and len(res.items) == 1 and t is not None):
+            return True
+        n = res.items[0]
+        if n is None or t.fields['tok'] == 'brace_open':
+            return True
+        return z_and(V.z_eq(it.getattr(n, 'pos'), t.fields['pos']), V.z_eq(it.getattr(n, 'pos_end'), t.fields['pos_end']),
+                     True if reader_pos is None else V.z_eq(reader_pos, it.getattr(n, 'pos_end')))
+
+    TRY = 'pylatexenc.latexnodes.parsers._expression._TryAgainWithSkippedCommentOrWhitespaceNodes'
+    c_pst = reg.add(Contract(
+        EXPR + '._parse_single_token', setup=setup_pst,
+        requires=[('reader-in-range', '0 <= %s and %s <= len(token_reader.s)' % (RDP, RDP)),
+                  ('reader-and-walker-share-the-string', 'token_reader.s == latex_walker.s'),
+                  ('reader-and-walker-agree-on-tolerant-mode', 'token_reader.tolerant_parsing == latex_walker.tolerant_parsing'),
+                  ('context-database-invariant', 'db_inv(parsing_state.latex_context) and db_inv(expr_parsing_state.latex_context)')],
+        ensures=[('a-begin-or-end-macro-is-no-expression',
+                  "implies(not %s and self.single_token_requiring_arg_is_error and last_token() is not None and "
+                  "last_token().tok == 'macro', not (last_token().arg in ('begin', 'end')))" % TOLW),
+                 ('single-token-node-covers-its-token-and-the-reader-stands-at-its-end',
+                  'nodes_span_token(result, %s)' % RDP),
+                 ('reader-never-moves-backwards', 'old(%s) <= %s and %s <= len(latex_walker.s)' % (RDP, RDP, RDP))],
+        raises={EXC + 'LatexWalkerNodesParseError': {'ensures': [LOC]},
+                EXC + 'LatexWalkerParseError': {'ensures': [LOC]},
+                TRY: {'ensures': []}},
+        modifies=[('token_reader._pos', 'int'), ('latex_walker._line_no_calc', lambda it, hint, cur=None: cur)]))
+    units['LatexExpressionParser._parse_single_token'] = FunctionUnit(c_pst, inline={
+        EXPR + '._check_if_requires_args', W + '.make_node', W + '.check_tolerant_parsing_ignore_error'}, split_depth=5)
+
     for k in units:
         contracts.REPLAYERS[k] = replay_parse
     return {'C01': dict(units), 'C05': dict(units), 'C06': dict(units)}
